@@ -84,15 +84,20 @@ Proof.
     pose proof (op_gated_spec _ _ _ Hv Hs L) as N; unfold gate_runs in N; rewrite Hg in N; discriminate.
 Qed.
 
-(* Locate filters: a handler that consults is_attribute_supported refuses a later attribute; _process_locate does not
-   consult it today, and lets "Sensitive" (KMIP 1.4) through under KMIP 1.0 *)
-Lemma locate_filter_gated_if_checked : forall v names n, site_checks_supported "_process_locate" = true ->
-  In n names -> ver_ltb v (spec_attr_min n) = true -> locate_filter_gate v names <> None.
+(* Locate filters: _process_locate refuses a filter attribute the request's version does not have (fix 1a2a215) *)
+Lemma locate_checked : locate_filter_checked = true.
+Proof. vm_compute; reflexivity. Qed.
+
+Lemma locate_filter_gated : forall v names n,
+  In n names -> ver_ltb v (spec_attr_min n) = true ->
+  exists m, locate_filter_gate v names = Some m /\ In m names /\ attr_supported v m = false.
 Proof.
-  intros v names n Hs Hin Hlt; unfold locate_filter_gate; rewrite Hs.
-  destruct (template_gate_refuses v names n Hin (attr_gated_spec v n Hlt)) as [m [Hm _]]; rewrite Hm; discriminate.
+  intros v names n Hin Hlt; unfold locate_filter_gate; rewrite locate_checked.
+  exact (template_gate_refuses v names n Hin (attr_gated_spec v n Hlt)).
 Qed.
 
-Lemma locate_filter_not_gated : exists v n, In v supported_versions /\ ver_ltb v (spec_attr_min n) = true
-  /\ locate_filter_gate v [n] = None.
-Proof. exists (1, 0), "Sensitive"%string; repeat split; vm_compute; tauto. Qed.
+Lemma locate_filter_passes : forall v names, locate_filter_gate v names = None ->
+  forall n, In n names -> attr_supported v n = true.
+Proof.
+  intros v names H; unfold locate_filter_gate in H; rewrite locate_checked in H; exact (template_gate_passes v names H).
+Qed.
